@@ -83,5 +83,5 @@ Theorem C03_erase_key_is_the_regenerated_one :
   forall cmp l v, HintGen.erase_key_gen cmp l v = (fst (SetModel.fs_erase_key cmp l v), Z.of_nat (snd (SetModel.fs_erase_key cmp l v))).
 Proof. exact HintTV.erase_key_tv. Qed.
 Theorem C03_bulk_insert_is_the_regenerated_one :
-  forall cmp l vs, HintGen.insert_range_gen cmp l vs = SetModel.fs_bulk cmp l vs.
+  forall cmp l vs, HintGen.insert_range_gen cmp l vs None = inl (SetModel.fs_bulk cmp l vs).
 Proof. exact HintTV.insert_range_tv. Qed.
